@@ -5,6 +5,11 @@
 #include "config.hh"
 #include "multi_progress.hh"
 #include "../scoped.hh"
+#ifdef KPU_KENLM_VERIF
+#include "../pcqueue.hh" // for KPU_KENLM_VERIF_POINT
+#elif !defined(KPU_KENLM_VERIF_POINT)
+#define KPU_KENLM_VERIF_POINT(id, obj)
+#endif
 
 #include <boost/ptr_container/ptr_vector.hpp>
 #include <boost/thread/thread.hpp>
@@ -74,11 +79,13 @@ class Thread {
      * This method is called automatically by this class's @ref Thread() "constructor".
      */
     template <class Position, class Worker> void operator()(const Position &position, Worker &worker) {
+      KPU_KENLM_VERIF_POINT(::util::verif::kThreadStart, this);
       try {
         worker.Run(position);
       } catch (const std::exception &e) {
         UnhandledException(e);
       }
+      KPU_KENLM_VERIF_POINT(::util::verif::kThreadEnd, this);
     }
 
   private:
@@ -178,6 +185,7 @@ class Chain {
     template <class Worker> typename CheckForRun<Worker>::type &operator>>(const Worker &worker) {
       assert(!complete_called_);
       threads_.push_back(new Thread(Add(), worker));
+      KPU_KENLM_VERIF_POINT(::util::verif::kThreadSpawned, &threads_.back());
       return *this;
     }
 
@@ -192,6 +200,7 @@ class Chain {
     template <class Worker> typename CheckForRun<Worker>::type &operator>>(const boost::reference_wrapper<Worker> &worker) {
       assert(!complete_called_);
       threads_.push_back(new Thread(Add(), worker));
+      KPU_KENLM_VERIF_POINT(::util::verif::kThreadSpawned, &threads_.back());
       return *this;
     }
 
@@ -200,6 +209,7 @@ class Chain {
     // To complete the loop, call CompleteLoop(), >> kRecycle, or the destructor.
     void CompleteLoop() {
       threads_.push_back(new Thread(Complete(), kRecycle));
+      KPU_KENLM_VERIF_POINT(::util::verif::kThreadSpawned, &threads_.back());
     }
 
     /**
